@@ -43,6 +43,7 @@ type iOp struct {
 	cbp  bool
 	nh   uint64 // NextHopFaceId in the LP header (0 = absent)
 	hint string // forwarding hint delegation ("" = none)
+	hl   uint   // HopLimit carried by the Interest on arrival (0 = no HopLimit element)
 }
 type dOp struct {
 	face uint64
@@ -93,6 +94,9 @@ func (s *sys) addI(o iOp) {
 	}
 	if o.hint != "" {
 		sh += "+hint=" + o.hint
+	}
+	if o.hl != 0 {
+		sh += fmt.Sprintf("+hl=%d", o.hl)
 	}
 	oo := o
 	s.add(fmt.Sprintf("I(%s,%s,%s)", faceLabel[o.face], o.name, sh), opDef{i: &oo})
@@ -190,8 +194,18 @@ func build(cfgName string) explore.System {
 	s.addI(iOp{face: fwsim.L1, name: "/localhost/x", hint: "/a"})
 	s.addI(iOp{face: fwsim.L1, name: "/localhost/x", hint: "/a", nh: fwsim.N2})
 	s.addI(iOp{face: fwsim.L1, name: A, hint: "/localhost/h"})
+	// Interests that CARRY a HopLimit (1: exhausted by the decrement, 2, 255), under /localhost and
+	// under /localhop, from the local application and from a non-local face
+	s.addI(iOp{face: fwsim.L1, name: "/localhost/x", hl: 2})
+	s.addI(iOp{face: fwsim.L1, name: probeName, hl: 2})
+	s.addI(iOp{face: fwsim.L1, name: "/localhost/x", hl: 1})
+	s.addI(iOp{face: fwsim.L1, name: "/localhost/x", hl: 255})
+	s.addI(iOp{face: fwsim.L1, name: "/localhost/x", hl: 2, nh: fwsim.N2})
+	s.addI(iOp{face: fwsim.N2, name: "/localhost/x", hl: 2})
+	s.addI(iOp{face: fwsim.L1, name: "/localhop/z", hl: 2})
+	s.addI(iOp{face: fwsim.N2, name: "/localhop/z", hl: 255})
 	if tiny {
-		keep := []string{"I(L1," + probeName + ",plain)", "I(N2," + A + ",plain)", "I(N2,/,cbp)", "D(L5," + probeName + ",none)", "D(L5,/localhost/x,echo0)", "D(N2,/localhost/x,echo0)", "T(100ms)"}
+		keep := []string{"I(L1," + probeName + ",plain+hl=2)", "I(N2," + A + ",plain)", "I(N2,/,cbp)", "D(L5," + probeName + ",none)", "D(L5,/localhost/x,echo0)", "D(N2,/localhost/x,echo0)", "T(100ms)"}
 		s.names, s.allOps = nil, nil
 		for _, n := range keep {
 			if _, ok := s.defs[n]; !ok {
@@ -283,6 +297,9 @@ func (s *sys) step(in *inst, op explore.Op) (v []report.Violation) {
 		is := fwsim.InterestSpec{Name: o.name, CanBePrefix: o.cbp, Nonce: fwsim.U32(0x2000 + in.nonceCtr)}
 		if o.hint != "" {
 			is.Hint = []string{o.hint}
+		}
+		if o.hl != 0 {
+			is.HopLimit = fwsim.Uint(o.hl)
 		}
 		var lp fwsim.LP
 		if o.nh != 0 {
@@ -395,7 +412,11 @@ func (s *sys) CheckState(i any) (v []report.Violation) {
 	}
 	fetch := func(round string) bool {
 		in.nonceCtr++
-		sends := in.sim.Interest(fwsim.L1, fwsim.InterestSpec{Name: probeName, Nonce: fwsim.U32(0x7000 + in.nonceCtr)}, fwsim.LP{})
+		ps := fwsim.InterestSpec{Name: probeName, Nonce: fwsim.U32(0x7000 + in.nonceCtr)}
+		if round == "second fetch" {
+			ps.HopLimit = fwsim.Uint(3) // a local application may well set one
+		}
+		sends := in.sim.Interest(fwsim.L1, ps, fwsim.LP{})
 		v = append(v, checkOut(sends, "forwarded to a FIB next hop")...)
 		toL1, toL5 := 0, 0
 		for _, sd := range sends {
@@ -481,8 +502,8 @@ func configs(th bool) []explore.Config {
 		c = append(c, explore.Config{Name: "history search (no dedup) leaky mc cs0 ht tiny", BuildName: "leaky mc cs0 ht tiny", MaxDepth: devDepth(6), MaxDev: -1, NoDedup: true})
 		add("br", "cs0", "ht", 5)
 		add("mc", "cs0", "ht", 5)
-		add("mc", "cs1", "tree", 6)
-		add("br", "cs1", "tree", 6)
+		add("mc", "cs1", "tree", 5)
+		add("br", "cs1", "tree", 5)
 		return c
 	}
 	for _, fib := range []string{"tree", "ht"} {
@@ -512,7 +533,7 @@ func main() {
 			}
 			return 90 * time.Second
 		},
-		Rule: "BFS over histories of Interest arrivals (names /localhost/x, /localhost/nfd/y, /a, / and /localhost with CanBePrefix; from local L1 and non-local N2/N3; NextHopFaceId -> N2 / L5), Data arrivals (same names, from L5/N2/L1, no token or echo of a live upstream token) and clock steps, on one real fw.Thread with leaky FIBs (default route and /localhost route to non-local N2, /localhost/nfd -> {L5,N2}), best-route or multicast on /, cache on/off, FIB tree/hash table; C09.out checked on every SendPacket of every step and of the probes, C09.in by comparing the complete white-box dump before/after each rejected packet, C09.local by a fetch-twice probe in every explored state",
+		Rule: "BFS over histories of Interest arrivals (names /localhost/x, /localhost/nfd/y, /localhop/z, /a, / and /localhost with CanBePrefix; with and without a HopLimit element (1, 2, 255); from local L1 and non-local N2/N3; NextHopFaceId -> N2 / L5), Data arrivals (same names, from L5/N2/L1, no token or echo of a live upstream token) and clock steps, on one real fw.Thread with leaky FIBs (default route and /localhost route to non-local N2, /localhost/nfd -> {L5,N2}), best-route or multicast on /, cache on/off, FIB tree/hash table; C09.out checked on every SendPacket of every step and of the probes, C09.in by comparing the complete white-box dump before/after each rejected packet, C09.local by a fetch-twice probe in every explored state",
 		Assumptions: []string{
 			"faces are simulated at the dispatch.Face seam (verif/harness/fwsim): Scope() of the fake face is what the thread consults; NextHopFaceId is copied into the packet only on faces with local fields enabled, as NDNLPLinkService.handleIncomingFrame does",
 			"L5 is a pure producer (never sends Interests), so it is never excluded as a next hop for holding an in-record",
